@@ -31,6 +31,7 @@ Cases == [ deny : 0..4,                                    \* phase of an uncond
            reqAccess : BOOLEAN, reqAction : {"Reject", "ProcessPartial"},
            respAccess : BOOLEAN, respAction : {"Reject", "ProcessPartial"},
            ctl : {"", "reqOn1", "respOn3"},                 \* a rule switching body access on at run time: ctl:requestBodyAccess=On in phase 1 / ctl:responseBodyAccess=On in phase 3
+           badct : BOOLEAN,                                 \* the handler's Content-Type carries a malformed parameter section ("text/plain; charset"): still text/plain
            body : {0, 4, 8, 12}, known : BOOLEAN,           \* request body size; Content-Length announced or chunked
            script : Scripts ]
 
@@ -51,6 +52,7 @@ VARIABLES c, step
 EffReqAccess(x) == x.reqAccess \/ x.ctl = "reqOn1"
 EffRespAccess(x) == x.respAccess \/ x.ctl = "respOn3"
 Init == c \in {x \in Cases : /\ (x.deny = 4 => EffRespAccess(x))
+                              /\ (x.badct => (EffRespAccess(x) /\ x.ctl = "" /\ x.deny \in {0, 4} /\ x.body = 0))        \* only where the response body is inspected
                               /\ (x.ctl = "reqOn1" => ~x.reqAccess) /\ (x.ctl = "respOn3" => ~x.respAccess)   \* only where the switch changes something          \* phase 4 needs an inspectable response body
                               /\ (x.deny \in {3, 4} => Touches(x.script)) \* a handler that never starts a response: left open
                               /\ (x.body = 0 => x.known)
